@@ -99,9 +99,60 @@ def _seq_untouched(body: List[ast.stmt], path: str, local_only: bool) -> bool:
     return True
 
 
+def _is_list_expr(v) -> bool:
+    if isinstance(v, (ast.List, ast.ListComp, ast.Tuple)):
+        return True
+    if isinstance(v, ast.Call) and isinstance(v.func, ast.Name) and v.func.id in ('list', 'sorted', 'tuple'):
+        return True
+    if isinstance(v, ast.BinOp) and isinstance(v.op, (ast.Mult, ast.Add)):
+        return _is_list_expr(v.left) or _is_list_expr(v.right)
+    return False
+
+
+def list_fields_of(tree: ast.Module) -> Set[str]:
+    """Attribute names that some method of the module initialises with a list (and never with anything else)."""
+    yes, no = set(), set()
+    for n in ast.walk(tree):
+        if isinstance(n, (ast.Assign, ast.AnnAssign)) and getattr(n, 'value', None) is not None:
+            tgts = n.targets if isinstance(n, ast.Assign) else [n.target]
+            pairs = []
+            for t in tgts:
+                if isinstance(t, (ast.Tuple, ast.List)) and isinstance(n.value, (ast.Tuple, ast.List)) and len(t.elts) == len(n.value.elts):
+                    pairs += list(zip(t.elts, n.value.elts))
+                else:
+                    pairs.append((t, n.value))
+            for t, v in pairs:
+                if isinstance(t, ast.Attribute) and isinstance(t.value, ast.Name):
+                    (yes if _is_list_expr(v) else no).add(t.attr)
+    return yes - no
+
+
+def map_fields_of(tree: ast.Module) -> Set[str]:
+    """Attribute names that some method of the module assigns a dict / table."""
+    out = set()
+    for n in ast.walk(tree):
+        if isinstance(n, (ast.Assign, ast.AnnAssign)) and getattr(n, 'value', None) is not None:
+            tgts = n.targets if isinstance(n, ast.Assign) else [n.target]
+            pairs = []
+            for t in tgts:
+                if isinstance(t, (ast.Tuple, ast.List)) and isinstance(n.value, (ast.Tuple, ast.List)) and len(t.elts) == len(n.value.elts):
+                    pairs += list(zip(t.elts, n.value.elts))
+                else:
+                    pairs.append((t, n.value))
+            for t, v in pairs:
+                if isinstance(t, ast.Attribute) and isinstance(t.value, ast.Name):
+                    f = v.func if isinstance(v, ast.Call) else None
+                    nm = f.id if isinstance(f, ast.Name) else (f.attr if isinstance(f, ast.Attribute) else '')
+                    if isinstance(v, (ast.Dict, ast.DictComp)) or nm in ('dict', 'DataFrame', 'OrderedDict', 'defaultdict', 'Series'):
+                        out.add(t.attr)
+    return out
+
+
 class _Normaliser:
-    def __init__(self, fn: ast.AST):
+    def __init__(self, fn: ast.AST, list_fields: Set[str] = frozenset(), map_fields: Set[str] = frozenset()):
         self.fn = fn
+        self.list_fields = list_fields
+        self.map_fields = map_fields
         self.changed = 0
         self.dead: Set[int] = set()      # nodes of statements that were replaced (still reachable from the old tree)
 
@@ -303,6 +354,8 @@ class _Normaliser:
         if path is None:
             return None
         idx = f.target.id
+        if self._may_be_mapping(path):
+            return None       # X[i] for i in range(len(X)) enumerates X only if X is a sequence (not a dict / table keyed 0..n-1)
         if not _seq_untouched(f.body, path, local_only='.' not in path):
             return None
         if _names_stored(f.body, idx) or _has_nested_scope_use(f.body, idx):
@@ -371,6 +424,47 @@ class _Normaliser:
         ast.fix_missing_locations(loop)
         return loop
 
+    def _may_be_mapping(self, path: str) -> bool:
+        """The name / attribute is (syntactically) known to hold a dict or a table somewhere in this function / module."""
+        def mapping_expr(v):
+            if isinstance(v, (ast.Dict, ast.DictComp)):
+                return True
+            if isinstance(v, ast.Call):
+                f = v.func
+                nm = f.id if isinstance(f, ast.Name) else (f.attr if isinstance(f, ast.Attribute) else '')
+                return nm in ('dict', 'DataFrame', 'OrderedDict', 'defaultdict', 'Series')
+            return False
+        if '.' in path:
+            return path.split('.')[-1] in self.map_fields
+        for y in ast.walk(self.fn):
+            if isinstance(y, ast.Assign) and any(isinstance(t, ast.Name) and t.id == path for t in y.targets) and mapping_expr(y.value):
+                return True
+            if isinstance(y, ast.AnnAssign) and isinstance(y.target, ast.Name) and y.target.id == path and y.value is not None and mapping_expr(y.value):
+                return True
+        return False
+
+    def _is_sequence(self, path: str) -> bool:
+        """The name / attribute is known to hold a list or tuple: a local only ever assigned list-valued expressions, the
+        *args tuple, or a field that the module's classes initialise with a list."""
+        if '.' in path:
+            return path.count('.') == 1 and path.split('.')[1] in self.list_fields
+        a = self.fn.args
+        if a.vararg is not None and a.vararg.arg == path:
+            return True
+        vals = []
+        for y in ast.walk(self.fn):
+            if isinstance(y, ast.Assign):
+                for t in y.targets:
+                    if isinstance(t, ast.Name) and t.id == path:
+                        vals.append(y.value)
+                    elif isinstance(t, (ast.Tuple, ast.List)) and any(isinstance(e, ast.Name) and e.id == path for e in t.elts):
+                        vals.append(None)
+            elif isinstance(y, (ast.AnnAssign, ast.AugAssign)) and isinstance(y.target, ast.Name) and y.target.id == path:
+                vals.append(y.value if isinstance(y, ast.AnnAssign) else None)
+            elif isinstance(y, (ast.For, ast.comprehension)) and any(isinstance(e, ast.Name) and e.id == path for e in ast.walk(y.target)):
+                vals.append(None)
+        return bool(vals) and all(v is not None and _is_list_expr(v) for v in vals)
+
     def _idx_used_after(self, f: ast.For, idx: str) -> bool:
         inside = {id(y) for y in ast.walk(f)}
         for y in ast.walk(self.fn):
@@ -382,7 +476,9 @@ class _Normaliser:
 def normalise_module(tree: ast.Module) -> int:
     """Apply the normal forms to every function of the module, in place; returns the number of rewrites."""
     n = 0
+    lf = list_fields_of(tree)
+    mf = map_fields_of(tree)
     for node in ast.walk(tree):
         if isinstance(node, (ast.FunctionDef, ast.AsyncFunctionDef)):
-            n += _Normaliser(node).run()
+            n += _Normaliser(node, lf, mf).run()
     return n
